@@ -35,7 +35,7 @@ QUERIES = ["find", "getNonEntries", "timestamps", "getValuesInIntervals", "getVa
 def floors(tier):
     f = {"evals": {"q." + q: 500 for q in QUERIES}, "classes": {}}
     for c in ("eq:identical", "eq:perturbed-name", "eq:perturbed-label", "eq:perturbed-time", "eq:perturbed-count", "eq:other-type",
-              "eq:foreign", "eq:symmetry-pair", "validate:corrupt-span", "validate:corrupt-order", "validate:corrupt-out-of-span",
+              "eq:foreign", "eq:symmetry-pair", "eq:textgrid-without-tiers", "validate:corrupt-span", "validate:corrupt-order", "validate:corrupt-out-of-span",
               "validate:corrupt-degenerate", "validate:clean", "validate:error-mode-raises", "samples:on-boundary", "samples:ties",
               "invert:touching", "invert:empty", "invert:at-bounds", "overlap:all-relations", "find:regex", "find:substr", "fuzzy:tie", "requery-after-mutation"):
         f["classes"]["C15:" + c] = 30
@@ -433,9 +433,11 @@ def classify_eq(a, b):
             return "diff"
         rs = [_num_rel(va["min"], vb["min"]), _num_rel(va["max"], vb["max"]), _cmp_entries(va["entries"], vb["entries"])]
     else:
-        if va["keys"] != vb["keys"] or None in (va["min"], va["max"], vb["min"], vb["max"]):
-            return "diff" if va["keys"] != vb["keys"] else "skip"
-        rs = [_num_rel(va["min"], vb["min"]), _num_rel(va["max"], vb["max"])]
+        if va["keys"] != vb["keys"]:
+            return "diff"
+        rs = []
+        for x, y in ((va["min"], vb["min"]), (va["max"], vb["max"])):  # a textgrid without tiers may have no span yet (None)
+            rs.append(("same" if x is y else "diff") if None in (x, y) else _num_rel(x, y))
         for ta, tb in zip(va["tiers"], vb["tiers"]):
             if ta["t"] != tb["t"] or ta["name"] != tb["name"]:
                 return "diff"
@@ -809,6 +811,12 @@ def _workload(tier, rng, shard, nshards):
             call(tg.validate, rng.choice(("silence", "warning", "error")))
             tg2 = tg.new()
             _ = (tg == tg2, tg2 == tg, tg == 5, tg == tg)
+            if k % 9 == 0:
+                # textgrids that have no tier (and possibly no span) yet
+                e1, e2, e3 = Textgrid(), Textgrid(), Textgrid(0.0, 5.0)
+                for x, y in ((e1, e1), (e1, e2), (e2, e1), (e1, e3), (e3, e1), (e3, Textgrid(0.0, 5.0)), (e1, tg), (tg, e1)):
+                    call(lambda: x == y)
+                REC.cls("C15:eq:textgrid-without-tiers")
             r = rng.random()
             if r < 0.35:
                 tg2.maxTimestamp = tg2.maxTimestamp + rng.choice([1.0, 1e-5])
